@@ -65,7 +65,7 @@ var c20Dims = []struct {
 	{"mode", []string{"server", "proxy", "badmode"}}, {"redis", []string{"ok", "unreachable"}}, {"cookieName", []string{"false"}}, {"serverURL", []string{"bad"}},
 	{"domain", []string{"false"}}, {"defaultURL", []string{"bad"}}, {"secure", []string{"false"}}, {"sameSite", []string{"Bogus"}},
 	{"upstream", []string{"both", "iponly", "portonly", "port70000", "portneg"}}, {"shutdown", []string{"equal", "less"}}, {"alg", []string{"BOGUS", "ES256"}},
-	{"acr", []string{"supported", "legacy", "unsupported"}}, {"locale", []string{"supported", "unsupported"}}, {"redisSecret", []string{"flag", "env", "uri", "uri-enc", "uri-dup"}},
+	{"acr", []string{"supported", "legacy", "unsupported"}}, {"locale", []string{"supported", "unsupported"}}, {"redisSecret", []string{"flag", "env", "uri", "uri-enc", "uri-dup", "flag-special", "env-special"}},
 	{"disco", []string{"noacr", "emptyacr", "nolocale", "noalg"}},
 }
 
@@ -358,6 +358,10 @@ func runC20(c *ctx) {
 				}
 				settings["redis.password"] = redisPassword
 				secretsGiven = append(secretsGiven, redisPassword)
+			case "flag-special", "env-special": // address + password settings, the password has characters that mean something inside a URI
+				redisAddr = mrSpecial.Addr()
+				settings["redis.password"] = redisPasswordSpecial
+				secretsGiven = append(secretsGiven, redisPasswordSpecial, url.QueryEscape(redisPasswordSpecial), url.PathEscape(redisPasswordSpecial))
 			case "uri":
 				settings["redis.uri"] = "redis://:" + redisPassword + "@" + mrAuth.Addr()
 				secretsGiven = append(secretsGiven, redisPassword)
@@ -425,7 +429,7 @@ func runC20(c *ctx) {
 			for k, v := range settings {
 				viaEnv := sc.viaEnv
 				if k == "redis.password" {
-					viaEnv = sc.redisSecret == "env"
+					viaEnv = strings.HasPrefix(sc.redisSecret, "env")
 				}
 				if viaEnv && k != "bind-address" && k != "metrics-bind-address" {
 					env = append(env, "WONDERWALL_"+strings.ToUpper(strings.NewReplacer(".", "_", "-", "_").Replace(k))+"="+v)
